@@ -383,14 +383,16 @@ _C41 = [
     ("c41_b_roundtrip_one_chunk_3_padded_size", "size line '03 ' (leading zero, trailing blank): Some([x,y,z])", "1 chunk of 3 bytes", None),
     ("c41_b_roundtrip_two_chunks", "two chunks reassemble in order: Some([x,y])", "2 chunks of 1 byte", None),
     ("c41_b_empty_body", "last-chunk only: Some([])", "fixed input", None),
-    ("c41_b_chunk_extension_ignored", "a chunk extension (`1;e`) does not change the decoded body", "1 chunk, 1-letter extension", None),
+    ("c41_b_chunk_extension_fixed_text", "a chunk extension (`1;x=1`) does not change the decoded body", "1 chunk, fixed extension text, symbolic payload byte", None),
+    ("c41_b_chunk_extension_ignored", "a chunk extension (`1;e`, any letter e) does not change the decoded body", "1 chunk, 1-letter extension", "thorough"),
     ("c41_b_missing_crlf_after_data_rejected", "chunk data not followed by CRLF is rejected (None)", "1 chunk, 2 arbitrary bytes in place of CRLF", None),
     ("c41_b_short_data_rejected", "declared size larger than the data present: None", "declared 5, present 1", None),
-    ("c41_b_non_hex_size_rejected", "size line that is not hexadecimal: None", "1 letter g..z", None),
+    ("c41_b_non_hex_size_fixed_text", "size line `zz` is not hexadecimal: None", "fixed size line, symbolic payload byte", None),
+    ("c41_b_non_hex_size_rejected", "size line that is not hexadecimal: None", "1 letter g..z", "thorough"),
     ("c41_b_missing_last_chunk_rejected", "input ends after a complete data chunk (no last-chunk): None", "1 chunk", None),
     ("c41_b_huge_size_no_panic", "size ffffffffffffffff: no panic (size + 2), rejected", "fixed input", None),
     ("c41_b_huge_size_minus_one_no_panic", "size fffffffffffffffe: no panic, rejected", "fixed input", None),
-    ("c41_b_arbitrary_bytes_no_panic", "no 3-byte ASCII input makes the decoder panic", "3 arbitrary ASCII bytes", None),
+    ("c41_b_arbitrary_bytes_no_panic", "no 3-byte ASCII input makes the decoder panic", "3 arbitrary ASCII bytes", "thorough"),
 ]
 PROPS["C41"] = {
     "files": ["kani/gravitino.rs"],
@@ -399,7 +401,7 @@ PROPS["C41"] = {
                    "Each obligation runs the REAL function on a structured symbolic input: the framing is laid out by the harness, payload bytes / extension letters / stray bytes are symbolic; "
                    "three std string functions are replaced by byte-level models that agree with std on ASCII (listed). Decided within these bounds: round trip for 1-3 payload bytes in 1-2 chunks, "
                    "chunk extensions, rejection of four kinds of malformed framing, and panic-freedom for huge sizes and for every 3-byte ASCII input. Nothing here is a proof for all bodies and chunkings.",
-    "kani": [H(GRV, n, "gravitino::dechunk", c, lane="B", bound=b, finding=f) for n, c, b, f in _C41],
+    "kani": [H(GRV, n, "gravitino::dechunk", c, lane="B", bound=b, tier=(t or "quick")) for n, c, b, t in _C41],
     "harness_timeout": {"quick": "15m", "thorough": "30m"},
     "trusted_base": [
         "stubs (assumed contracts on std, ASCII only; a non-ASCII byte reaching them fails the harness): std::str::from_utf8, str::trim, usize::from_str_radix(.., 16)",
@@ -427,13 +429,15 @@ PROPS["C06"] = {
         H(CEX, "c06_cmp_f64_shape_reg_reg__excluding_known", "CompiledPredicate::eval_chunk (CmpF64, LitF64)", "register/register shape keeps the operand order"),
         H(CEX, "c06_cmp_i64_scalars", "CompiledPredicate::eval_chunk (CmpI64)", "mask bit == arrow i64 comparison, all inputs, mask is 0/1"),
         H(CEX, "c06_cmp_i32_scalars", "CompiledPredicate::eval_chunk (CmpI32)", "mask bit == arrow i32 comparison (Int32 and Date32 columns), all inputs"),
-        H(CEX, "c06_arith_f64_add", "CompiledPredicate::eval_chunk (Arith, LitF64)", "Add bit-equal to the IEEE operation; operand registers untouched (magnitudes bounded so results stay finite)"),
-        H(CEX, "c06_arith_f64_sub", "CompiledPredicate::eval_chunk (Arith, LitF64)", "Subtract bit-equal to the IEEE operation"),
+        H(CEX, "c06_lit_f64_fills_register", "CompiledPredicate::eval_chunk (LitF64)", "the literal fills its register; other registers untouched"),
+        H(CEX, "c06_arith_f64_add", "CompiledPredicate::eval_chunk (Arith, LitF64)", "Add bit-equal to the IEEE operation; operand registers untouched (magnitudes bounded so results stay finite)", tier="thorough"),
+        H(CEX, "c06_arith_f64_sub", "CompiledPredicate::eval_chunk (Arith, LitF64)", "Subtract bit-equal to the IEEE operation", tier="thorough"),
         H(CEX, "c06_arith_f64_mul", "CompiledPredicate::eval_chunk (Arith, LitF64)", "Multiply bit-equal to the IEEE operation", tier="thorough"),
         H(CEX, "c02_o1_mask_and", "CompiledPredicate::eval_chunk (And)", "d == x & y on 0/1 masks; operands untouched"),
         H(CEX, "c02_o1_mask_or", "CompiledPredicate::eval_chunk (Or)", "d == x | y on 0/1 masks; operands untouched"),
         H(CEX, "c02_o1_mask_not", "CompiledPredicate::eval_chunk (Not)", "d == 1 - x on 0/1 masks; operand untouched"),
     ],
+    "harness_timeout": {"quick": "15m", "thorough": "30m"},
     "trusted_base": [
         "interpreter comparison semantics = arrow ArrowNativeTypeOp (called as oracle); arrow kernels are position-wise uniform",
         "column-slice shapes read arrow value buffers directly (`arr.values()[start..start+len]`): exercised with literal/register operands only; a 1-row real array costs ~100 s per harness and is not part of the quick tier",
@@ -460,7 +464,19 @@ PROPS["C02"] = {
         H(CEX, "c02_o1_mask_not", "CompiledPredicate::eval_chunk (Not)", "d == 1 - x on 0/1 masks; operand untouched"),
         H(CEX, "c02_o2_compiled_validity_kleene", "CompiledPredicate::evaluate (validity region + any_nulls region)", "row kept <=> Kleene value of `p AND/OR q` is TRUE, all operand states (NULL cells carry arbitrary values)", lane="KX", finding="D1"),
         H(CEX, "c02_o2_compiled_validity_kleene__excluding_known", "CompiledPredicate::evaluate (validity region + any_nulls region)", "same, outside class D1 (exactly one operand NULL and the other decides)", lane="KX"),
-        H(CFO, "c02_o4_eval_int64", "ConstantFolding::eval_int64", "never panics; a folded value is the exact integer result / comparison; overflow and division by zero are not folded; all (i64, op, i64)"),
+        H(CFO, "c02_o4_eval_int64_add", "ConstantFolding::eval_int64", "Add: folded value == checked_add; overflow not folded; all i64 pairs"),
+        H(CFO, "c02_o4_eval_int64_sub", "ConstantFolding::eval_int64", "Subtract: folded value == checked_sub; all i64 pairs"),
+        H(CFO, "c02_o4_eval_int64_mul", "ConstantFolding::eval_int64", "Multiply: folded value == checked_mul; all i64 pairs"),
+        H(CFO, "c02_o4_eval_int64_div", "ConstantFolding::eval_int64", "Divide: never panics (i64::MIN / -1); folds to an Int64 exactly when defined; x / 0 not folded; all i64 pairs"),
+        H(CFO, "c02_o4_eval_int64_rem", "ConstantFolding::eval_int64", "Modulo: never panics (i64::MIN % -1); x % 0 not folded; all i64 pairs"),
+        H(CFO, "c02_o4_eval_int64_div_rem_samples", "ConstantFolding::eval_int64", "quotient / remainder on concrete samples (pins the operator; the symbolic value comparison needs two 64-bit dividers and does not finish)", lane="B", bound="5 concrete samples"),
+        H(CFO, "c02_o4_eval_int64_eq", "ConstantFolding::eval_int64", "= folds to the comparison"),
+        H(CFO, "c02_o4_eval_int64_ne", "ConstantFolding::eval_int64", "<> folds to the comparison"),
+        H(CFO, "c02_o4_eval_int64_lt", "ConstantFolding::eval_int64", "< folds to the comparison"),
+        H(CFO, "c02_o4_eval_int64_le", "ConstantFolding::eval_int64", "<= folds to the comparison"),
+        H(CFO, "c02_o4_eval_int64_gt", "ConstantFolding::eval_int64", "> folds to the comparison"),
+        H(CFO, "c02_o4_eval_int64_ge", "ConstantFolding::eval_int64", ">= folds to the comparison"),
+        H(CFO, "c02_o4_eval_int64_other_ops_not_folded", "ConstantFolding::eval_int64", "a non-arithmetic, non-comparison operator is not folded"),
         H(CFO, "c02_o4_eval_bool", "ConstantFolding::eval_bool", "AND/OR/=/<> on non-NULL booleans"),
         H(CFO, "c02_o4_eval_float64__excluding_known", "ConstantFolding::eval_float64", "comparisons equal the interpreter's (arrow total order) outside the NaN/signed-zero class; x / 0.0 is not folded"),
     ],
@@ -472,28 +488,6 @@ PROPS["C02"] = {
     "technique": "Kani harnesses in place on the mask kernels and the constant folder (all inputs) + Kani on the verbatim validity region of CompiledPredicate::evaluate against Kleene logic",
     "level_text": "Deductive for the units named: all operand states and all literal values. The interpreter path is outside CBMC's reach and is stated as not under contract.",
     "level_note": "Trusted: Kani/CBMC; carrier for arrow arrays in the validity region. Known finding D1 (null-strict AND/OR in the compiled path, as in the interpreter) excluded by class.",
-}
-
-# ------------------------------------------------------------------ C16
-HTC = "distributed::http_client"
-PROPS["C16"] = {
-    "files": ["kani/http_client.rs"],
-    "level": "other",
-    "explanation": "Bounded stand-in only: http_client::parse_response is byte/str code (windows/position, from_utf8_lossy, split_whitespace, parse, split_once, to_ascii_lowercase) that Verus cannot read. "
-                   "CBMC runs the REAL function on structured inputs: fixed status line and header block, symbolic body bytes and symbolic truncation point. Decided within these bounds: a response "
-                   "without header terminator is an error; the body is exactly what follows the terminator; a body shorter than the declared Content-Length is never returned as a success.",
-    "kani": [
-        H(HTC, "c16_b_no_terminator_is_error", "http_client::parse_response", "no CRLFCRLF => Err (never a success with an empty body)", lane="B", bound="<= 6 arbitrary bytes"),
-        H(HTC, "c16_b_body_is_rest_after_terminator", "http_client::parse_response", "status parsed; body == bytes after the terminator", lane="B", bound="fixed 18-byte head, 2 symbolic body bytes"),
-        H(HTC, "c16_b_truncated_body_is_error", "http_client::parse_response", "Content-Length: 3 with 0/1/2 body bytes delivered: never Ok with a short body", lane="B", bound="fixed 38-byte head, every truncation point of a 3-byte body"),
-        H(HTC, "c16_b_complete_body_with_length", "http_client::parse_response", "Content-Length: 2 and 2 bytes delivered: Ok, body complete", lane="B", bound="fixed head, 2 symbolic body bytes"),
-    ],
-    "harness_timeout": {"quick": "20m", "thorough": "40m"},
-    "trusted_base": ["bounded: one fixed header block; header values are not symbolic"],
-    "not_under_contract": ["request / request_inner (socket, timeout, read_to_end)", "header sets, status lines and Content-Length values other than the fixed ones", "HttpResponse::header"],
-    "technique": "bounded Kani harnesses (structured symbolic inputs) on the real parse_response; labelled bounded, not a proof",
-    "level_text": "Bounded model checking of the real parser on structured inputs: the truncation clause is checked for every cut point of one declared length. Chosen because string parsing is out of reach of the contract route with the installed tools.",
-    "level_note": "Trusted: Kani/CBMC; fixed header block; the socket layer is outside any verifier.",
 }
 
 # ------------------------------------------------------------------ C15
